@@ -32,6 +32,9 @@ type Output interface {
 	StartPoint(ctx context.Context, runIds []string) (StartPoint, error)
 	Send(ctx context.Context, reader ChannelReader) error
 	SetRunId(ctx context.Context, runId string) error
+	// ResetStartPoint forgets the stored resume position : a full resynchronisation
+	// replaces the history that position belongs to
+	ResetStartPoint(ctx context.Context, runIds []string) error
 	Close()
 }
 
@@ -255,6 +258,52 @@ func (ro *RedisOutput) SetRunId(ctx context.Context, id string) error {
 		ro.logger.Infof("UpdateCheckpoint : cp(%s), runId(%s,%s)", ro.cfg.CheckpointName, id, ro.cfg.RunId)
 		ro.cfg.RunId = id
 		return err
+	}, 3, time.Second*4, 0.3)
+}
+
+// ResetStartPoint drops the stored resume position. The source answered FULLRESYNC :
+// the target will be rebuilt from a snapshot of another replication history (or of an
+// offset the backlog no longer reaches), so the stored offset means nothing in it.
+// Until the snapshot replay stores its own position, a restart must find no position
+// (and replay the snapshot) instead of the old offset relabelled with the new run id.
+func (ro *RedisOutput) ResetStartPoint(ctx context.Context, runIds []string) error {
+	if !ro.cfg.EnableResumeFromBreakPoint {
+		ro.cpGuard.Lock()
+		ro.checkpointInMem = checkpoint.CheckpointInfo{Key: ro.cfg.CheckpointName, RunId: "?", Offset: -1, Version: config.Version}
+		ro.cpGuard.Unlock()
+		if !ro.bisyncEnabled() {
+			return nil
+		}
+	}
+	if ro.cfg.CheckpointName == "" {
+		return nil
+	}
+	// every id StartPoint may have found the position under
+	ids := []string{}
+	for _, id := range append([]string{ro.cfg.RunId}, runIds...) {
+		seen := id == "" || id == "?"
+		for _, x := range ids {
+			seen = seen || x == id
+		}
+		if !seen {
+			ids = append(ids, id)
+		}
+	}
+	return util.RetryLinearJitter(ctx, func() error {
+		cli, err := ro.NewRedisConn(ctx)
+		if err != nil {
+			return err
+		}
+		defer cli.Close()
+		for _, id := range ids {
+			err = checkpoint.DelCheckpoint(cli, ro.cfg.CheckpointName, id)
+			if err != nil {
+				ro.logger.Errorf("reset start point error : cp(%s), runId(%s), err(%v)", ro.cfg.CheckpointName, id, err)
+				return err
+			}
+		}
+		ro.logger.Infof("reset start point : cp(%s), runIds(%v)", ro.cfg.CheckpointName, ids)
+		return nil
 	}, 3, time.Second*4, 0.3)
 }
 
